@@ -808,57 +808,57 @@ func coversCloseEvents(site ssa.Instruction) (bool, string) {
 // (closing says whether k is one of the closing events); conditions on anything else are followed both ways.
 func eventEdgeOK(isEv func(ssa.Value) bool, k string, closing bool) func(from, to *ssa.BasicBlock) bool {
 	return func(from, to *ssa.BasicBlock) bool {
-			ifi, ok := from.Instrs[len(from.Instrs)-1].(*ssa.If)
-			if !ok {
-				return true
+		ifi, ok := from.Instrs[len(from.Instrs)-1].(*ssa.If)
+		if !ok {
+			return true
+		}
+		takenTrue := from.Succs[0] == to
+		if from.Succs[0] == from.Succs[1] {
+			return true
+		}
+		cond := ifi.Cond
+		neg := false
+		for {
+			if u, ok := cond.(*ssa.UnOp); ok && u.Op == token.NOT {
+				cond, neg = u.X, !neg
+				continue
 			}
-			takenTrue := from.Succs[0] == to
-			if from.Succs[0] == from.Succs[1] {
-				return true
-			}
-			cond := ifi.Cond
-			neg := false
-			for {
-				if u, ok := cond.(*ssa.UnOp); ok && u.Op == token.NOT {
-					cond, neg = u.X, !neg
-					continue
-				}
-				break
-			}
-			val, known := false, false
-			switch x := cond.(type) {
-			case *ssa.Call:
-				if rv := recvOf(x.Common()); rv != nil && isEv(rv) {
-					switch methodName(x.Common()) {
-					case "IsClose":
-						val, known = closing, true
-					case "ConnectFailure":
-						val, known = k == "ConnectFailed" || k == "ConnectTimeout", true
-					}
-				}
-			case *ssa.BinOp:
-				if x.Op == token.EQL || x.Op == token.NEQ {
-					var other ssa.Value
-					if isEv(x.X) {
-						other = x.Y
-					} else if isEv(x.Y) {
-						other = x.X
-					}
-					if other != nil {
-						if s, okS := constStringVal(other); okS {
-							val, known = (s == k) == (x.Op == token.EQL), true
-						}
-					}
+			break
+		}
+		val, known := false, false
+		switch x := cond.(type) {
+		case *ssa.Call:
+			if rv := recvOf(x.Common()); rv != nil && isEv(rv) {
+				switch methodName(x.Common()) {
+				case "IsClose":
+					val, known = closing, true
+				case "ConnectFailure":
+					val, known = k == "ConnectFailed" || k == "ConnectTimeout", true
 				}
 			}
-			if !known {
-				return true
+		case *ssa.BinOp:
+			if x.Op == token.EQL || x.Op == token.NEQ {
+				var other ssa.Value
+				if isEv(x.X) {
+					other = x.Y
+				} else if isEv(x.Y) {
+					other = x.X
+				}
+				if other != nil {
+					if s, okS := constStringVal(other); okS {
+						val, known = (s == k) == (x.Op == token.EQL), true
+					}
+				}
 			}
-			if neg {
-				val = !val
-			}
-			return val == takenTrue
-			}
+		}
+		if !known {
+			return true
+		}
+		if neg {
+			val = !val
+		}
+		return val == takenTrue
+	}
 }
 
 // eventParamOf: the function's ConnectionEvent parameter and a predicate recognising it (also when spilled).
